@@ -13,18 +13,19 @@ git diff > $DST/patch.diff
 DEMO=$(ls $SRC/*_test.go 2>/dev/null | head -1)
 cp "$DEMO" $DST/demo_test.go
 cp $SRC/README.md $DST/README.agent.md 2>/dev/null
+RACE=${SEED_RACE:+-race}   # SEED_RACE=1: the demonstration needs the race detector
 RUNRE=$(grep -o '^func Test[A-Za-z0-9_]*' $DST/demo_test.go | sed 's/func //' | paste -sd'|')
 B=fail; go build ./... && B=ok
 S=fail; for i in 1 2 3; do go test -vet=off -count=1 -timeout 25m ./... > /var/tmp/store-$N-suite.log 2>&1 && { S=ok; break; }; done
 cp $DST/demo_test.go zz_demo_test.go
-DP=passes; go test -vet=off -count=1 -run "^($RUNRE)\$" . > /var/tmp/store-$N-demo-patched.log 2>&1 || DP=fails
+DP=passes; go test $RACE -vet=off -count=1 -run "^($RUNRE)\$" . > /var/tmp/store-$N-demo-patched.log 2>&1 || DP=fails
 git checkout -q -- . 
-DC=fails; go test -vet=off -count=1 -run "^($RUNRE)\$" . > /var/tmp/store-$N-demo-clean.log 2>&1 && DC=passes
+DC=fails; go test $RACE -vet=off -count=1 -run "^($RUNRE)\$" . > /var/tmp/store-$N-demo-clean.log 2>&1 && DC=passes
 cd /; git -C /repo worktree remove --force $WT
 HEAD=$(git -C /repo log --format=%h -1)
-python3 - "$DST" "$PROP" "$N" "$B" "$S" "$DP" "$DC" "$HEAD" "$CAUGHT" "$RUNRE" <<'PY'
+python3 - "$DST" "$PROP" "$N" "$B" "$S" "$DP" "$DC" "$HEAD" "$CAUGHT" "$RUNRE" "$RACE" <<'PY'
 import json, sys, re
-dst, prop, name, b, s, dp, dc, head, caught, runre = sys.argv[1:]
+dst, prop, name, b, s, dp, dc, head, caught, runre, race = (sys.argv[1:] + [""])[:11]
 needs = ""
 try:
     txt = open(dst + "/README.agent.md").read()
@@ -36,7 +37,7 @@ meta = {"seed": name, "property": prop, "made_by": "independent sub-agent given 
         "needs_to_manifest": needs, "repo_head_when_confirmed": head,
         "confirmation": {"library_builds_with_patch": b, "existing_suite_with_patch": s, "demo_with_patch": dp, "demo_without_patch": dc,
                          "commands": ["git apply patch.diff", "go build ./...", "go test -vet=off -count=1 -timeout 25m ./...  (up to 3 tries; the suite is flaky on this machine even unpatched)",
-                                      "cp demo_test.go zz_demo_test.go; go test -vet=off -count=1 -run '^(%s)$' ." % runre]},
+                                      "cp demo_test.go zz_demo_test.go; go test %s -vet=off -count=1 -run '^(%s)$' ." % (race, runre)]},
         "confirmed": b == "ok" and s == "ok" and dp == "fails" and dc == "passes",
         "detected_by": caught}
 json.dump(meta, open(dst + "/meta.json", "w"), indent=1)
